@@ -134,7 +134,7 @@ def run(m, rep, tier):
 
     d5 = rep.rule('D5', 'size adjusted exactly once per primitive; incrementing and decrementing primitives exist', floor=2)
     fns = [f for f in m.all_plain_functions() if (f.file or '').endswith(('dlist.c', 'dlist.h'))]
-    adj = [f for f in fns if listrules.count_once(m, f, d5, DL, 'size')]
+    adj = [f for f in fns if listrules.count_once(m, f, d5, DL, 'size', node=NODE, links=('n', 'p'))]
 
     def has(f, c):
         is_size = listrules.field_addr_pred(m, f, DL, 'size')
